@@ -232,7 +232,7 @@ def run(mod, tier, seed):
         k = mod.nontrivial_key(c, o)
         if k is not None:
             keys[k] = 1
-    samples = [mod.describe(cases[i], ev["obs"][i]) for i in _sample_idx(len(cases))]
+    samples = [_shallow(mod.describe(cases[i], ev["obs"][i])) for i in _sample_idx(len(cases))]
     tb = ["Coq 8.16.1 kernel + VM (vm_compute evaluates Model/Spec on the cases; also used in Examples/refutations)",
           "tools/extract.py (constants regenerated from /repo on this run); tools/impl/run_impl.py + tools/props/%s.py "
           "(run /repo's code, canonicalise, write the case shards)" % prop.lower()]
@@ -269,6 +269,18 @@ def run(mod, tier, seed):
         prop, tier, ev["n"], len(ev["lists"][0]), len(ev["lists"][1]), len(known),
         binfo["discharged"], binfo["obligations"], time.time() - t0))
     return 1 if nviol else 0
+
+
+def _shallow(obj, depth=0, maxdepth=24):
+    """evidence files must stay readable by any JSON parser: structures nested deeper than maxdepth
+    (the deep degenerate trees) are replaced by a short description"""
+    if depth >= maxdepth:
+        return "<nested deeper than %d levels: %d characters of JSON omitted>" % (maxdepth, len(json.dumps(obj, default=str)))
+    if isinstance(obj, dict):
+        return {k: _shallow(v, depth + 1, maxdepth) for k, v in obj.items()}
+    if isinstance(obj, (list, tuple)):
+        return [_shallow(v, depth + 1, maxdepth) for v in obj]
+    return obj
 
 
 def _sample_idx(n):
